@@ -91,6 +91,8 @@ func validType(v interface{}, p *sigParam) bool {
 	}
 	j := has(p.types, 'j')
 	switch x := v.(type) {
+	case nil:
+		return j || has(p.types, 'l') // null fits the null type letter and json
 	case string:
 		return j || has(p.types, 's')
 	case float64:
@@ -156,9 +158,6 @@ func fitSig(sig []sigParam, args []interface{}, ctx interface{}) ([]interface{},
 				a = []interface{}{a}
 				args[i] = a
 			}
-		}
-		if a == nil {
-			return nil, &Unspecified{"null argument under a typed parameter"}
 		}
 		if !validType(a, p) {
 			return nil, E(fmt.Sprintf("argtype:%d", i+1))
